@@ -326,8 +326,84 @@ def ts_check(case):
     return res
 
 
+# ------------------------------------------------------------------ lattice points next to a bin edge (large grids)
+
+
+def exact_bin(s_):
+    """radial bin of a mode with |k|^2 = s_ in exact integer arithmetic: |k| < m + 1/2  <=>  s_ <= m^2 + m"""
+    m = math.isqrt(s_)
+    return m if s_ <= m * m + m else m + 1
+
+
+def edge_strata(tier):
+    ns = [64, 256] if tier == "quick" else [48, 64, 128, 232, 256, 300]
+    return [dict(id="D2-N%d" % N, D=2, N=N) for N in ns] + [dict(id="D3-N%d" % N, D=3, N=N) for N in ((20,) if tier == "quick" else (20, 32))]
+
+
+def edge_strategy(stratum, tier):
+    return st.fixed_dictionaries(
+        dict(D=st.just(stratum["D"]), N=st.just(stratum["N"]), picks=st.lists(st.integers(0, 10**6), min_size=4, max_size=4), top=st.booleans(),
+             a=gens.nonzero_coef(0.5, 2.0), phi=st.floats(0.1, 1.4).map(lambda x: float("%.3g" % x)))
+    )  # fmt: skip
+
+
+_EDGE_CACHE = {}
+
+
+def edge_candidates(D, N):
+    """stored wavenumber vectors whose |k|^2 is m(m+1) (just below the edge m+1/2: gap ~ 1/(8m)) or m(m+1)+1 (just above)"""
+    if (D, N) not in _EDGE_CACHE:
+        w = orc.rfft_wavenumbers(D, N).astype(int)
+        s2 = (w**2).sum(0)
+        m = np.floor(np.sqrt(s2)).astype(int)
+        m = np.where(m * m > s2, m - 1, m)
+        near = ((s2 == m * m + m) | (s2 == m * m + m + 1)) & (s2 > 0)
+        if N % 2 == 0:
+            near &= np.all(np.abs(w) < N // 2, axis=0)
+        idx = np.argwhere(near)
+        ks = [tuple(int(w[d][tuple(i)]) for d in range(D)) for i in idx]
+        def _gap(k):
+            s_ = sum(x * x for x in k)
+            m_ = math.isqrt(s_)
+            return abs(math.sqrt(s_) - (m_ + 0.5)) / (m_ + 0.5)
+
+        ks.sort(key=lambda k: (_gap(k), k))  # smallest relative distance to a bin edge first
+        _EDGE_CACHE[(D, N)] = ks
+    return _EDGE_CACHE[(D, N)]
+
+
+def edge_check(case):
+    D, N = case["D"], case["N"]
+    res = R()
+    key = "C17:bin_edge:D%d" % D
+    cands = edge_candidates(D, N)
+    if not cands:
+        return res
+    res.nontrivial = True
+    res.tag("bin_edge", "D%d" % D, "N%d" % N)
+    J = orc.own_grid(D, N, float(N))
+    for pick in case["picks"]:
+        # 'top': the modes with the smallest relative gap to a bin edge - otherwise anywhere in the list
+        k = cands[pick % max(8, len(cands) // 20)] if case["top"] else cands[pick % len(cands)]
+        s2 = sum(x * x for x in k)
+        b = exact_bin(s2)
+        th = case["phi"] + sum(2 * math.pi * k[d] / N * J[d] for d in range(D))
+        u = (case["a"] * np.cos(th))[None]
+        ok, sp = res.lib("get_spectrum", get_spectrum, jnp.asarray(u), power=False, radial_binning="sum", key=key)
+        if not ok:
+            continue
+        sp = np.asarray(sp)[0]
+        tol = 1e-9 * abs(case["a"]) * N ** (D / 2)
+        if b <= N // 2:
+            res.claim("edge_mode_in_its_bin", abs(float(sp[b]) - abs(case["a"])), tol, key=key, msg="k=%s |k|^2=%d bin %d: got %.6g want %.6g" % (k, s2, b, sp[b], abs(case["a"])))
+        rest = np.delete(sp, b) if b <= N // 2 else sp
+        res.claim("edge_mode_nowhere_else", float(np.max(np.abs(rest))), tol, key=key, msg="k=%s |k|^2=%d bin %d: largest other bin %.3g at %d" % (k, s2, b, float(np.max(np.abs(rest))), int(np.argmax(np.abs(rest)))))
+    return res
+
+
 SUBS = [
     Sub("single_mode", check_mode, strata=mode_strata, strategy=strat_mode, frames=frames_mode, n=(2, 4), exhaustive=True),
+    Sub("bin_edges", edge_check, strata=edge_strata, strategy=edge_strategy, n=(6, 30)),
     Sub("dynamic_range", ts_check, strata=ts_strata, strategy=ts_strategy, n=(20, 120)),
     Sub("random_state", check_state, strata=state_strata, strategy=strat_state, n=(10, 60), reps=(1, 2)),
 ]
